@@ -21,9 +21,21 @@ type captureDispatcher struct {
 	mu      sync.Mutex
 	lines   [][]byte
 	invalid int
+	gate    chan struct{} // when set: the first Dispatch call waits here (back-pressure from the pipeline)
+	stalled chan struct{} // closed when the first call has started waiting
+	once    sync.Once
 }
 
 func (c *captureDispatcher) Dispatch(buf []byte) {
+	if c.gate != nil {
+		c.once.Do(func() {
+			close(c.stalled)
+			select {
+			case <-c.gate:
+			case <-time.After(5 * time.Second):
+			}
+		})
+	}
 	c.mu.Lock()
 	c.lines = append(c.lines, append([]byte(nil), buf...))
 	c.mu.Unlock()
@@ -80,13 +92,15 @@ func (r *scriptReader) Read(p []byte) (int, error) {
 }
 
 type c12Case struct {
-	Kind string `json:"kind"`           // plain | udp | udp_live | amqp
+	Kind string `json:"kind"`           // plain | udp | udp_live | udp_burst | tcp_live | amqp
 	Host string `json:"host,omitempty"` // udp_live: 127.0.0.1 or [::1]
 	// tcp_live: a real listener with a read timeout; the segments are written after the given pauses
 	TimeoutMs int        `json:"timeout_ms,omitempty"`
 	Segs      []tcpSeg   `json:"segs,omitempty"`
 	Script    []readStep `json:"script,omitempty"`
 	Body      string     `json:"body,omitempty"`
+	Bodies    []string   `json:"bodies,omitempty"`   // udp_burst: the datagrams, in sending order
+	StallMs   int        `json:"stall_ms,omitempty"` // udp_burst: how long the first Dispatch keeps waiting after the last datagram was sent
 }
 
 type tcpSeg struct {
@@ -183,6 +197,52 @@ func runC12(raw json.RawMessage) (interface{}, error) {
 				} else if n > 0 && time.Since(since) > 150*time.Millisecond {
 					break
 				}
+			}
+		}
+		l.Stop()
+	case "udp_burst":
+		// several datagrams through a real socket while the pipeline stalls inside the first one: the later datagrams
+		// arrive (and wait in the socket) while the first is still being scanned
+		ln, err := net.Listen("tcp", "127.0.0.1:0")
+		if err != nil {
+			return nil, err
+		}
+		addr := ln.Addr().String()
+		ln.Close()
+		d.gate, d.stalled = make(chan struct{}), make(chan struct{})
+		l := input.NewListener(addr, time.Second, input.NewPlain(d))
+		if err := l.Start(); err != nil {
+			return nil, err
+		}
+		cn, err := net.Dial("udp", addr)
+		if err != nil {
+			l.Stop()
+			return nil, err
+		}
+		want := 0
+		for i, b := range c.Bodies {
+			body := unhx(b)
+			want += bytes.Count(body, []byte("\n"))
+			cn.Write(body)
+			if i == 0 {
+				select {
+				case <-d.stalled:
+				case <-time.After(2 * time.Second):
+				}
+			}
+		}
+		time.Sleep(time.Duration(c.StallMs) * time.Millisecond)
+		close(d.gate)
+		cn.Close()
+		last, since := -1, time.Now()
+		for deadline := time.Now().Add(4 * time.Second); time.Now().Before(deadline); time.Sleep(10 * time.Millisecond) {
+			d.mu.Lock()
+			n := len(d.lines)
+			d.mu.Unlock()
+			if n != last {
+				last, since = n, time.Now()
+			} else if (n >= want && time.Since(since) > 150*time.Millisecond) || time.Since(since) > time.Second {
+				break
 			}
 		}
 		l.Stop()
